@@ -41,6 +41,8 @@ def cases(draw, max_enum):
         # a user loss with memory (running normalisation): its state travels with the checkpoint like everything else
         cfg["loss"] = {"kind": "adaptive_stub"}
         cfg.pop("sim_length", None)
+    # early stopping is part of the configuration (the resumed run must stop at the same batch as the uninterrupted one)
+    cfg["convergence_precision"] = draw(st.sampled_from([None, None, None, 0, 0, 1]))
     big = draw(st.integers(0, 3)) == 0
     n = draw(st.integers(max_enum + 1, 8)) if big else draw(st.integers(2, max_enum))
     cfg["max_batches"] = n
@@ -66,17 +68,35 @@ def run_pattern(cfg, n, pattern, folder, model):
     return cal, ret
 
 
+def expected_batches(pattern, n, k):
+    """Number of batches a cut run executes when the stopping rule first holds after batch k (None: never within n): every
+    calibrate() call runs at least one batch and stops right after the first batch at which the rule holds."""
+    segs, seg = [], 0
+    for i in range(n):
+        seg += 1
+        if i == n - 1 or pattern[i]:
+            segs.append(seg)
+            seg = 0
+    cur = 0
+    for sg in segs:
+        cur += sg if k is None else min(sg, max(1, k - cur))
+    return cur
+
+
 def check_resume(ctx: Ctx, case):
     sub = "resume"
     cfg, n = case["cfg"], case["n"]
     kinds = [s["kind"] for s in cfg["lineup"]]
     model = models.get(cfg["model"], cfg["D"])
     pats = [list(p) for p in itertools.product([0, 1, 2], repeat=n - 1)] if case["patterns"] == "all" else case["patterns"]
+    p = cfg.get("convergence_precision")
     root = tempfile.mkdtemp(prefix="c05-")
     try:
         try:
             with watchdog(300, "twin"):
-                twin, tret = run_pattern(cfg, n, [0] * (n - 1), root + "/twin", model)
+                # the reference for the rows is the uninterrupted run *without* early stopping (stopping does not influence
+                # what is sampled); where the uninterrupted run stops is then derived from its losses
+                twin, tret = run_pattern(dict(cfg, convergence_precision=None), n, [0] * (n - 1), root + "/twin", model)
         except Inconclusive:
             raise
         except Exception as e:  # noqa: BLE001
@@ -84,24 +104,45 @@ def check_resume(ctx: Ctx, case):
             # surrogate): nothing to compare a resumed run with
             raise Inconclusive(f"the uninterrupted run raises {type(e).__name__}") from e
         h0 = calib.hist_snapshot(twin)
-        for k, pat in enumerate(pats):
+        k = None
+        if p is not None:
+            from harness.checks.c14 import verdict
+            running = None
+            for b in range(n):
+                lb = h0["losses_samp"][h0["batch_num_samp"] == b]
+                if np.isnan(lb).any():
+                    raise Inconclusive("NaN losses: the stopping rule is not defined on them")
+                running = float(np.min(lb)) if running is None else min(running, float(np.min(lb)))
+                v = verdict(running, p) if np.isfinite(running) else "go"
+                if v == "either":
+                    raise Inconclusive("best loss within rounding distance of the stopping threshold")
+                if v == "stop":
+                    k = b + 1
+                    break
+        for kk, pat in enumerate(pats):
             one = dict(case, patterns=[pat])
             at_cut = sorted({kinds[(i + 1) % len(kinds)] for i, c in enumerate(pat) if c == 2})
-            ctx.count(sub, one, any(k_ in STATEFUL for k_ in at_cut), [f"n={n}", f"restores={sum(c == 2 for c in pat)}", f"loss={cfg['loss']['kind']}"] +
-                      [f"restore-before-{k_}" for k_ in at_cut])
-            if not any(pat):
+            ctx.count(sub, one, any(k_ in STATEFUL for k_ in at_cut), [f"n={n}", f"restores={sum(c == 2 for c in pat)}",
+                                                                       f"loss={cfg['loss']['kind']}"] +
+                      [f"restore-before-{k_}" for k_ in at_cut] + (["early-stop-inside"] if k is not None and k < n else []))
+            if not any(pat) and p is None:
                 continue
             with guard(ctx, "C05/exception", sub, one), watchdog(300, "pattern"):
-                cal, ret = run_pattern(cfg, n, pat, f"{root}/p{k}", model)
-            diff = calib.hist_diff(h0, calib.hist_snapshot(cal))
-            if diff is None and not (calib.same_values(tret[0], ret[0]) and calib.same_values(tret[1], ret[1])):
+                cal, ret = run_pattern(cfg, n, pat, f"{root}/p{kk}", model)
+            m = expected_batches(pat, n, k)
+            rows = int((h0["batch_num_samp"] < m).sum())
+            ref = {key: val[:rows] for key, val in h0.items()}
+            diff = calib.hist_diff(ref, calib.hist_snapshot(cal))
+            if diff is None and m == n and p is None and not (calib.same_values(tret[0], ret[0]) and calib.same_values(tret[1], ret[1])):
                 diff = "final return value differs"
             if diff:
                 first_restore = next((i + 1 for i, c in enumerate(pat) if c == 2), None)
                 ctx.fail("C05/resumed-run-differs", f"{n} batches cut as {pat} (0 none, 1 second calibrate(), 2 checkpoint+restore; "
-                         f"first restore after batch {first_restore}) differ from the uninterrupted run: {diff}", sub, one)
+                         f"first restore after batch {first_restore}) differ from the uninterrupted run"
+                         + (f" (stopping rule first holds after batch {k}: {m} batches expected)" if p is not None else "")
+                         + f": {diff}", sub, one)
                 return
-            shutil.rmtree(f"{root}/p{k}", ignore_errors=True)
+            shutil.rmtree(f"{root}/p{kk}", ignore_errors=True)
         if case["patterns"] == "all":
             ctx.classes[f"{sub}:configs-with-all-patterns-n={n}"] += 1
     finally:
